@@ -148,18 +148,18 @@ theorem C17_refuse_stateless (P : Proto) (c : Cfg) (tid : Nat) :
 /-! ## Defects: the protocols as found, and what remains -/
 
 /-- **`CreateConnection` as found** (check under `RLock`, insert later under `Lock`; repaired by
-`fix:` d41560d): two admissions at `limit-1` both pass the check, both insert. -/
+`fix:` 1a08cdc): two admissions at `limit-1` both pass the check, both insert. -/
 theorem C17_conn_asFound_witness :
     holds true 1 0 (run protoConnAsFound 1 (init 0 [(0, [.acquire]), (0, [.acquire])]) [0, 1, 0, 1]).trace
       (run protoConnAsFound 1 (init 0 [(0, [.acquire]), (0, [.acquire])]) [0, 1, 0, 1]).occ = false := by decide
 
-/-- **Mapping handler as found** (`Load`, check, separate `Add`; repaired by `fix:` 3a408d4). -/
+/-- **Mapping handler as found** (`Load`, check, separate `Add`; repaired by `fix:` e89ebcc). -/
 theorem C17_map_asFound_witness :
     holds true 2 1 (run protoMapAsFound 2 (init 1 [(0, [.acquire]), (0, [.acquire])]) [0, 1, 0, 1]).trace
       (run protoMapAsFound 2 (init 1 [(0, [.acquire]), (0, [.acquire])]) [0, 1, 0, 1]).occ = false := by decide
 
 /-- **Quotas as found** (count-then-create without mutual exclusion; repaired for one service
-instance by `fix:` 1ae17b0). -/
+instance by `fix:` e66c8f8). -/
 theorem C17_code_asFound_witness :
     holds false 1 0 (run protoCodeAsFound 1 (init 0 [(0, [.acquire]), (0, [.acquire])]) [0, 1, 0, 1, 0, 1, 0, 1, 0, 1]).trace
       (run protoCodeAsFound 1 (init 0 [(0, [.acquire]), (0, [.acquire])]) [0, 1, 0, 1, 0, 1, 0, 1, 0, 1]).occ = false := by decide
@@ -174,15 +174,15 @@ theorem C17_quota_two_instances_witness :
 
 /-- The defaults are positive bounds and the default constructors use the named constants. -/
 theorem C17_defaults_ok :
-    0 < session.DefaultMaxControlConnections ∧ session.DefaultMaxControlConnections ≤ session.DefaultMaxConnections ∧
-    sessioncfg.MaxConnections = session.DefaultMaxConnections ∧
-    sessioncfg.MaxControlConnections = session.DefaultMaxControlConnections ∧
-    0 < conncode.MaxActiveCodesPerClient ∧ 0 < conncode.MaxActiveMappingsPerClient := by decide
+    0 < lim_session.DefaultMaxControlConnections ∧ lim_session.DefaultMaxControlConnections ≤ lim_session.DefaultMaxConnections ∧
+    lim_sessioncfg.MaxConnections = lim_session.DefaultMaxConnections ∧
+    lim_sessioncfg.MaxControlConnections = lim_session.DefaultMaxControlConnections ∧
+    0 < lim_conncode.MaxActiveCodesPerClient ∧ 0 < lim_conncode.MaxActiveMappingsPerClient := by decide
 
 /-- `CreateConnection`: early check under `RLock` (`> 0 &&`, `>=`), the injectable
 `GetConnectionID()`, then re-check and insert in ONE `Lock` section; a refusal there removes the
 stream and releases the generated id (refused ⇒ no state left behind). -/
-theorem flow_CreateConnection : Gen.Flow.CreateConnection = [
+theorem flow_CreateConnection : Gen.Flow.L17_CreateConnection = [
   "if s.config != nil && s.config.MaxConnections > 0",
   "s.connLock.RLock()",
   "currentCount := len(s.connMap)",
@@ -237,7 +237,7 @@ theorem flow_CreateConnection : Gen.Flow.CreateConnection = [
 ] := by decide +kernel
 
 /-- `ClientRegistry.Register`: lock first; `> 0 &&`, `>=`; evict the oldest, else refuse; insert. -/
-theorem flow_ClientRegister : Gen.Flow.ClientRegister = [
+theorem flow_ClientRegister : Gen.Flow.L17_ClientRegister = [
   "if conn == nil",
   "return fmt.Errorf(\"connection cannot be nil\")",
   "end",
@@ -267,7 +267,7 @@ theorem flow_ClientRegister : Gen.Flow.ClientRegister = [
   "return nil"
 ] := by decide +kernel
 
-theorem flow_findOldest : Gen.Flow.findOldest = [
+theorem flow_findOldest : Gen.Flow.L17_findOldest = [
   "var oldestConn *ControlConnection",
   "var oldestTime time.Time",
   "for _, conn := range r.connMap",
@@ -280,7 +280,7 @@ theorem flow_findOldest : Gen.Flow.findOldest = [
 ] := by decide +kernel
 
 /-- `TunnelRegistry.Register`: lock first; `> 0 &&`, `>=`; refuse; insert. -/
-theorem flow_TunnelRegister : Gen.Flow.TunnelRegister = [
+theorem flow_TunnelRegister : Gen.Flow.L17_TunnelRegister = [
   "if conn == nil",
   "return coreerrors.New(coreerrors.CodeInvalidParam, \"connection cannot be nil\")",
   "end",
@@ -302,7 +302,7 @@ theorem flow_TunnelRegister : Gen.Flow.TunnelRegister = [
 ] := by decide +kernel
 
 /-- `acquireConnectionSlot`: `Load`; `> 0 &&`, `>=`; `CompareAndSwap(current, current+1)`; loop. -/
-theorem flow_acquireConnectionSlot : Gen.Flow.acquireConnectionSlot = [
+theorem flow_acquireConnectionSlot : Gen.Flow.L17_acquireConnectionSlot = [
   "maxConn := h.connectionLimit()",
   "for",
   "current := h.activeConnCount.Load()",
@@ -315,9 +315,9 @@ theorem flow_acquireConnectionSlot : Gen.Flow.acquireConnectionSlot = [
   "end"
 ] := by decide +kernel
 
-theorem flow_releaseConnectionSlot : Gen.Flow.releaseConnectionSlot = ["h.activeConnCount.Add(-1)"] := by decide
+theorem flow_releaseConnectionSlot : Gen.Flow.L17_releaseConnectionSlot = ["h.activeConnCount.Add(-1)"] := by decide
 
-theorem flow_connectionLimit : Gen.Flow.connectionLimit = [
+theorem flow_connectionLimit : Gen.Flow.L17_connectionLimit = [
   "maxConn := h.config.MaxConnections",
   "if maxConn <= 0",
   "quota, err := h.client.GetUserQuota()",
@@ -335,33 +335,33 @@ theorem flow_connectionLimit : Gen.Flow.connectionLimit = [
 /-- `handleConnection`: the slot is claimed first, released through ONE `sync.OnceFunc` either by
 the deferred clean-up (only while `slotOwnedByTunnel` is false) or by the tunnel's `OnClosed`; the
 ownership flag is set only after `tun.Start()`.  No bare `activeConnCount.Add` is left. -/
-theorem skel_handleConnection : Gen.Skel.handleConnection =
+theorem skel_handleConnection : Gen.Skel.L17_handleConnection =
     ["acquireConnectionSlot", "sync.OnceFunc", "@h.releaseConnectionSlot", "@slotOwnedByTunnel", "@slotOwnedByTunnel",
      "releaseSlot", "adapter.PrepareConnection", "client.CheckMappingQuota", "client.DialTunnel", "tunnel.NewTunnel",
      "releaseSlot", "tunnelManager.RegisterTunnel", "tun.Start", "@slotOwnedByTunnel"] := by decide
 
 /-- The control cap of the session configuration is the registry's cap. -/
 theorem skel_NewSessionManager :
-    Gen.Skel.NewSessionManager = ["NewClientRegistry", "@config.MaxControlConnections", "NewTunnelRegistry"] := by decide
-theorem skel_RegisterControlConnection : Gen.Skel.RegisterControlConnection = ["clientRegistry.Register"] := by decide
+    Gen.Skel.L17_NewSessionManager = ["NewClientRegistry", "@config.MaxControlConnections", "NewTunnelRegistry"] := by decide
+theorem skel_RegisterControlConnection : Gen.Skel.L17_RegisterControlConnection = ["clientRegistry.Register"] := by decide
 theorem skel_CloseConnection :
-    Gen.Skel.CloseConnection = ["connLock.Lock", "delete", "connLock.Unlock", "RemoveControlConnection", "RemoveTunnelConnection"] := by
+    Gen.Skel.L17_CloseConnection = ["connLock.Lock", "delete", "connLock.Unlock", "RemoveControlConnection", "RemoveTunnelConnection"] := by
   decide
 
 /-- `CreateConnectionCode`: lock, (deferred unlock), count, compare with the quota, create. -/
-theorem skel_CreateConnectionCode : Gen.Skel.CreateConnectionCode =
+theorem skel_CreateConnectionCode : Gen.Skel.L17_CreateConnectionCode =
     ["codeQuotaMu.Lock", "defer codeQuotaMu.Unlock", "connCodeRepo.CountActiveByTargetClient", "@s.maxActiveCodesPerClient",
      "@s.maxActiveCodesPerClient", "generator.GenerateUnique", "connCodeRepo.GetByCode", "generateID", "connCodeRepo.Create"] := by
   decide
 
 /-- `ActivateConnectionCode`: lock, (deferred unlock), list, compare with the quota, create. -/
-theorem skel_ActivateConnectionCode : Gen.Skel.ActivateConnectionCode =
+theorem skel_ActivateConnectionCode : Gen.Skel.L17_ActivateConnectionCode =
     ["connCodeRepo.GetByCode", "mappingQuotaMu.Lock", "defer mappingQuotaMu.Unlock", "portMappingRepo.GetClientPortMappings",
      "@s.maxActiveMappingsPerClient", "@s.maxActiveMappingsPerClient", "@s.maxActiveMappingsPerClient",
-     "portMappingService.CreatePortMapping", "connCode.Activate", "portMappingService.DeletePortMapping", "connCodeRepo.Update",
+     "connCode.Activate", "portMappingService.CreatePortMapping", "connCodeRepo.Update",
      "portMappingService.DeletePortMapping"] := by decide
 
-theorem flow_CountActiveByTargetClient : Gen.Flow.CountActiveByTargetClient = [
+theorem flow_CountActiveByTargetClient : Gen.Flow.L17_CountActiveByTargetClient = [
   "codes, err := r.ListByTargetClient(targetClientID)",
   "if err != nil",
   "return 0, err",
@@ -376,10 +376,10 @@ theorem flow_CountActiveByTargetClient : Gen.Flow.CountActiveByTargetClient = [
 ] := by decide +kernel
 
 theorem skel_ListByTargetClient :
-    Gen.Skel.ListByTargetClient = ["listStore.GetList", "r.GetByID", "listStore.RemoveFromList"] := by decide
-theorem skel_CodeGetByID : Gen.Skel.CodeGetByID = ["storage.Get"] := by decide
-theorem skel_CodeGetByCode : Gen.Skel.CodeGetByCode = ["storage.Get"] := by decide
-theorem skel_CodeCreate : Gen.Skel.CodeCreate =
+    Gen.Skel.L17_ListByTargetClient = ["listStore.GetList", "r.GetByID", "listStore.RemoveFromList"] := by decide
+theorem skel_CodeGetByID : Gen.Skel.L17_CodeGetByID = ["storage.Get"] := by decide
+theorem skel_CodeGetByCode : Gen.Skel.L17_CodeGetByCode = ["storage.Get"] := by decide
+theorem skel_CodeCreate : Gen.Skel.L17_CodeCreate =
     ["{ret", "}", "{ret", "}", "storage.Set", "{ret", "}", "storage.Set", "{ret", "storage.Delete", "}", "{ret", "}",
      "listStore.AppendToList", "{ret", "storage.Delete", "storage.Delete", "}"] := by decide
 
@@ -387,11 +387,11 @@ theorem skel_CodeCreate : Gen.Skel.CodeCreate =
 id in the count (`cnt n = n`), and between the check and the index append one `Get` (uniqueness of
 the code) plus the `Set`s of `Create` that precede `AppendToList` (`mid`). -/
 theorem C17_code_steps :
-    protoCode.mid = Gen.Skel.CodeGetByCode.length +
-      ((Gen.Skel.CodeCreate.takeWhile (· != "listStore.AppendToList")).filter (· == "storage.Set")).length ∧
-    (∀ n, protoCode.cnt n = n * Gen.Skel.CodeGetByID.length) := by
+    protoCode.mid = Gen.Skel.L17_CodeGetByCode.length +
+      ((Gen.Skel.L17_CodeCreate.takeWhile (· != "listStore.AppendToList")).filter (· == "storage.Set")).length ∧
+    (∀ n, protoCode.cnt n = n * Gen.Skel.L17_CodeGetByID.length) := by
   refine ⟨by decide, ?_⟩
-  intro n; simp [protoCode, Gen.Skel.CodeGetByID]
+  intro n; simp [protoCode, Gen.Skel.L17_CodeGetByID]
 
 /-! ## Non-vacuity -/
 
